@@ -218,7 +218,7 @@ def run(tier, v):
         t0[0] = time.time()
     # ------------------------------------------------------------------ 1. design
     rc = vlib.tlc("Archive", "Archive_cov.cfg", timeout=900, heap="4g", workers=WORKERS, coverage=True)
-    r = vlib.tlc("Archive", "Archive_quick.cfg", timeout=1500, heap="8g", workers=WORKERS)
+    r = vlib.tlc("Archive", "Archive_quick.cfg", timeout=1500, heap="4g", workers=WORKERS)
     for x in (rc, r):
         if not x["ok"]:
             raise vlib.Infra("Archive model violates %s on the design level:\n%s" % (x["violated"], x["out"][-3000:]))
@@ -232,7 +232,7 @@ def run(tier, v):
     runs = [("Archive_quick.cfg", r)]
     if not quick:
         for cfg in ("Archive_thorough.cfg", "Archive_thorough_pipe.cfg"):
-            r2 = vlib.tlc("Archive", cfg, timeout=3000, heap="16g", workers=WORKERS)
+            r2 = vlib.tlc("Archive", cfg, timeout=3000, heap="6g", workers=WORKERS)
             if not r2["ok"]:
                 raise vlib.Infra("Archive model violates %s on the design level (%s):\n%s" % (r2["violated"], cfg, r2["out"][-3000:]))
             runs.append((cfg, r2))
@@ -245,7 +245,7 @@ def run(tier, v):
     phase("tlc_design")
     h = vlib.build_harness(["c15"])
     # ------------------------------------------------------------------ 2. spec -> impl
-    g = vlib.tlc("ArchiveGen", "ArchiveGen_quick.cfg", timeout=1200, heap="8g", workers=WORKERS)
+    g = vlib.tlc("ArchiveGen", "ArchiveGen_quick.cfg", timeout=1200, heap="4g", workers=WORKERS)
     if not g["ok"]:
         raise vlib.Infra("ArchiveGen violates %s:\n%s" % (g["violated"], g["out"][-3000:]))
     cases = vlib.mbt_lines(g["out"])
@@ -297,12 +297,12 @@ def run(tier, v):
         raise vlib.Infra("c15_tv: %d shard(s) crashed" % s["shards_crashed"])
     files = sorted(glob.glob(os.path.join(out, "shard-*", "trace-*.ndjson")))
     files = [f for f in files if os.path.getsize(f) > 0]
-    res = vlib.validate_traces("ArchiveTrace", "ArchiveTrace.cfg", files, timeout=3000, heap="3g")
+    res = vlib.validate_traces("ArchiveTrace", "ArchiveTrace.cfg", files, timeout=3000, heap="2g")
     # trees with more entries than the open-file limit (own process: RLIMIT_NOFILE = 64)
     lout = os.path.join(vlib.scratch(), "c15lim")
     ls = vlib.run_driver(h, "c15_limits", lout, {"n": 300, "nofile": 64}, timeout=600)
     lfiles = [os.path.join(lout, "trace-00.ndjson"), os.path.join(lout, "trace-01.ndjson")]
-    lres = vlib.validate_traces("ArchiveTrace", "ArchiveTrace.cfg", lfiles, timeout=900, heap="3g")
+    lres = vlib.validate_traces("ArchiveTrace", "ArchiveTrace.cfg", lfiles, timeout=900, heap="2g")
     phase("trace_validation")
     measured = {k: x for k, x in s.items() if k.startswith("many")}
     cov["limit_runs"] = {k: x for k, x in ls.items() if k in ("nofile", "scan_err", "scan_entries", "scan_dirfds", "xfer_setup_err", "eof_runs", "wr_calls")}
